@@ -72,8 +72,9 @@ def stats(program) -> Dict[str, Any]:
         "n_leaves": len(leaves),
         "n_subs": len(subs),
         "nesting": max_nesting(top) - 1,
-        "n_explicit": sum(1 for it in leaves if it.get("rel")),
-        "rel_types": sorted({it["rel"][0] for it in leaves if it.get("rel")}),
+        "n_explicit": sum(1 for it in leaves if it.get("rel") and it["rel"][1] >= 0),
+        "n_dangling": sum(1 for it in leaves if it.get("rel") and it["rel"][1] < 0),
+        "rel_types": sorted({it["rel"][0] for it in leaves if it.get("rel") and it["rel"][1] >= 0}),
         "n_zero": sum(1 for it in leaves if it.get("d") == ["fix", 0.0] or it["k"] in ("DetectorOperation", "LogicalObservableOperation", "CoordinateShiftOperation", "TwoQubitVirtualPhase")),
         "max_reps": max([top.get("reps", 1)] + [s["sub"].get("reps", 1) for s in subs]),
         "n_reps_gt1": sum(1 for s in subs if s["sub"].get("reps", 1) > 1) + (1 if top.get("reps", 1) > 1 else 0),
@@ -104,6 +105,7 @@ class GenCfg:
     globals_: bool = True
     global_zero: bool = False
     p_share: int = 0              # percent chance to re-use an earlier item's link object
+    p_dangling: int = 0           # percent of explicit relations that refer to an operation outside the circuit (ref -1)
     tags: List[str] = field(default_factory=lambda: ["", "a", "b"])
     max_reg_up: int = 0           # measurements may use the registry of an ancestor this many levels up
     durations: List[float] = field(default_factory=lambda: list(DYADIC))
@@ -162,11 +164,14 @@ def program_strategy(cfg: GenCfg):
             candidates = [j for j in range(index) if cfg.rel_to_sub or not is_sub(earlier[j])]
             if candidates:
                 # share a link object with an earlier explicit item of the same circuit
-                sharable = [j for j in range(index) if not is_sub(earlier[j]) and earlier[j].get("rel") and "share" not in earlier[j]]
+                sharable = [j for j in range(index) if not is_sub(earlier[j]) and earlier[j].get("rel") and "share" not in earlier[j]
+                            and earlier[j]["rel"][1] >= 0]
                 if cfg.p_share and sharable and draw(st.integers(0, 99)) < cfg.p_share:
                     j = draw(st.sampled_from(sharable))
                     it["rel"] = list(earlier[j]["rel"])
                     it["share"] = j
+                elif cfg.p_dangling and draw(st.integers(0, 99)) < cfg.p_dangling:
+                    it["rel"] = [draw(st.sampled_from(list(cfg.rel_types))), -1]
                 else:
                     it["rel"] = [draw(st.sampled_from(list(cfg.rel_types))), draw(st.sampled_from(candidates))]
         return it
@@ -310,6 +315,9 @@ def make_operation(it, p, circ_path, decl, ancestors, b: Built):
     if it.get("rel"):
         if "share" in it:
             link = b.links[circ_path + (it["share"],)]
+        elif it["rel"][1] < 0:
+            # relation to an operation that is not part of the circuit: the library warns and places the item implicitly
+            link = RelationLink(_classes()["Identity"](qubit_index=97), RelationType[REL[it["rel"][0]]])
         else:
             link = RelationLink(b.handles[circ_path + (it["rel"][1],)], RelationType[REL[it["rel"][0]]])
         b.links[p] = link
